@@ -1171,7 +1171,7 @@ def model_requests(ctx, exe, reqs):
 def check_programs(ctx, h, exe, progs, pair_type_hint=None, outer=True, label="C03"):
     """progs: list of (key, forms).  Runs everything; reports through ctx.  Returns list of per-program dicts."""
     texts = [" ".join(scm(f) for f in forms) for _, forms in progs]
-    hdr, answers = h.run(["PROG " + t for t in texts])
+    hdr, answers = h.run(["PROGF " + t for t in texts])
     pair_type = hdr.get("pair-type", 6)
     names = Names()
     mreq, plan = [], []
@@ -1237,7 +1237,7 @@ def first_diff(a, b, path=""):
 
 
 def replay_cmd(text, d):
-    return "echo 'PROG %s' | LD_LIBRARY_PATH=%s %s/embed_c03 | grep '^[VE] '" % (text.replace("'", "'\\''"), d, d)
+    return "echo 'PROGF %s' | LD_LIBRARY_PATH=%s %s/embed_c03 | grep '^[VE] '" % (text.replace("'", "'\\''"), d, d)
 
 
 def spec_verdict(spec):
@@ -1407,6 +1407,8 @@ def same_failure(v, spec, impl):
         return False
     if spec.split()[0] != v["expected"].split()[0] or (spec.startswith("E ") and spec != v["expected"]):
         return False
+    if impl.startswith("E "):
+        return impl == v["observed"]                       # the same error class, not e.g. a syntax error introduced by shrinking
     return impl.split()[0] == v["observed"].split()[0]
 
 
@@ -1517,21 +1519,30 @@ def load_corpus():
 
 
 def run(ctx):
-    ctx.cov["rule"] = ("programs = (a) corpus, (b) fixed call-protocol / error cases, (c) exhaustive capture family: binding kind "
-                       "{param 0/1/last, rest with 0/1/3 extra args, internal define 1st/2nd, let} x use {captured read, captured "
-                       "write, captured read+write, own write, own write + captured read, shadowed, unused, forward reference} x "
-                       "nesting depth 1-4 x {immediate, escaping closure}, (d) seeded random typed programs (pure operands, so "
-                       "argument order cannot matter) over core and derived forms; a case is distinct by program text and "
-                       "non-trivial when it contains a lambda or define")
+    ctx.cov["rule"] = ("programs = (a) corpus, (b) fixed call-protocol / error cases and derived-form scoping cases (named let, do, cond =>, "
+                       "case, and/or, truthiness, operand set!), (c) capture family: binding kind {param 0/1/last, rest with 0/1/3 extra "
+                       "args, internal define 1st/2nd, let} x use {captured read, write, read+write, own write, own write + captured read, "
+                       "shadowed, unused, forward reference} x nesting depth 1-4 x {immediate, escaping closure}, (d) position families: a "
+                       "rest parameter / a captured variable referenced at exactly one of 44 syntactic position classes (test of "
+                       "if/cond/and/or/when/unless/case/do, operand, operator, set! target/value, nested closures, only then/else branch, "
+                       "non-final sequence element, initialisers) x call shape x 0/1/3 surplus arguments, (e) forward-reference family: "
+                       "earlier closure -> later internal define / letrec / letrec* binding x initialiser {5 constants, computed, lambda} x "
+                       "{never assigned, assigned in body, assigned by a closure} x closure depth 1-3, (f) top-level sequences: define, "
+                       "re-define, set!, forward references, procedures compiled before the globals they use (fixed + random), (g) closure "
+                       "chains 4-6 deep with every boxed/unboxed mask, (h) seeded random typed programs (pure operands, so argument order "
+                       "cannot matter) over core and derived forms; a case is distinct by program text and non-trivial when it contains a "
+                       "lambda or define")
     ctx.coq_obligations("Properties_C03")
     partial = False
     try:
         d = ctx.build("default")
     except B.BuildError:
-        # the tree's own build runs the freshly built chibi-scheme on its .stub files; a broken compiler makes that
-        # step fail.  If the core library was linked, go on with it (core forms only) to find a concrete failing program.
+        # vlib/build.py raises when ANY step of the tree's own `make all` fails and leaves the directory on disk.  The later
+        # steps run the freshly built chibi-scheme (chibi-ffi on .stub files, module compilation), so a broken compiler makes
+        # them fail.  If chibi-scheme and the core library were linked, go on with them: the harness only needs
+        # libchibi-scheme.so and lib/init-7.scm (it defines when/unless itself when (scheme base) cannot be imported).
         d = os.path.join(B.SCRATCH, "default-" + B.source_hash())
-        if not os.path.exists(os.path.join(d, "libchibi-scheme.so")):
+        if not (os.path.exists(os.path.join(d, "libchibi-scheme.so")) and os.path.exists(os.path.join(d, "lib", "init-7.scm"))):
             raise
         partial = True
         ctx.note("build of the tree failed after libchibi-scheme was linked; continued with the core library only")
@@ -1540,20 +1551,23 @@ def run(ctx):
         return
     h = Harness(d)
     rng = ctx.rng
-    progs = load_corpus() + [(k, f) for k, f in FIXED_CASES]
+    q = not ctx.thorough
+    progs = load_corpus() + [(k, f) for k, f in FIXED_CASES] + [("misc/" + k, f) for k, f in MISC_CASES] + [(k, f) for k, f in REDEFINE_READS_OLD]
     fam = capture_family()
-    if not ctx.thorough:
-        keep = 320
-        fam = [fam[i] for i in sorted(rng.sample(range(len(fam)), min(keep, len(fam))))]
+    if q:
+        fam = [fam[i] for i in sorted(rng.sample(range(len(fam)), min(240, len(fam))))]
     core_keys = set(k for k, _ in fam) | set(k for k, _ in FIXED_CASES)
     progs += fam
-    nrand = 500 if not ctx.thorough else 20000
+    progs += rest_family(rng, 4 if q else None)
+    progs += capture_pos_family(rng, 130 if q else None)
+    progs += fwd_family(rng, 160 if q else None)
+    progs += toplevel_family(rng, 120 if q else 3000)
+    progs += chain_family(rng, 60 if q else None)
+    nrand = 500 if q else 20000
     for i in range(nrand):
-        if partial and i % 2 == 1:
-            continue
         g = Gen(rng, derived=(i % 2 == 1))
         progs.append(("rand-%s#%d" % ("derived" if i % 2 else "core", i), g.program(rng.choice([2, 3, 4]))))
-    plan = []
+    plan, viols = [], []
     CH = 2500
     for lo in range(0, len(progs), CH):
         part = check_programs(ctx, h, exe, progs[lo:lo + CH])
@@ -1561,23 +1575,30 @@ def run(ctx):
             e["forms"] = f
             e["core_only"] = (k in core_keys and "let" not in k) or k.startswith("rand-core")
         plan += part
-        nv = judge(ctx, part, d)
-    targeted_search(ctx, h, exe, d, plan)
+        judge(ctx, part, d, viols)
+    targeted_search(ctx, h, exe, d, plan, viols)
+    inner = report_inner(ctx, plan)
+    if inner:
+        ctx.note("inner disagreements by kind: %s" % sorted(inner.items()))
+    emit_violations(ctx, h, exe, d, viols)
     dist = {}
     for e in plan:
         c = e["key"].split("#")[0].split("/")[0]
         dist[c] = dist.get(c, 0) + 1
     ctx.cov["generator_distribution"] = dict(by_family=dict(sorted(dist.items(), key=lambda kv: -kv[1])[:30]),
-                                             with_rest=sum(1 for e in plan if ". " in e["text"]),
+                                             with_rest=sum(1 for e in plan if "rest" in classify(e["text"])),
                                              with_set=sum(1 for e in plan if "set!" in e["text"]),
                                              with_internal_define=sum(1 for e in plan if "(define" in e["text"][1:]),
+                                             multi_form=sum(1 for e in plan if len(e.get("forms") or []) > 2),
+                                             rest_flag_comparisons=sum(1 for e in plan for i in e["inner"] if i.get("impl_flags") is not None),
                                              errors_expected=sum(1 for e in plan if (e["spec"] or "").startswith("E ")))
     for e in plan[:1] + plan[len(FIXED_CASES) + 3:len(FIXED_CASES) + 5] + plan[-2:]:
         ctx.sample(dict(program=e["text"][:400], spec=e["spec"], impl=e["impl"],
                         inner_forms=len(e["inner"])))
-    ctx.assume("operands of applications are evaluated right to left by the SPEC (R7RS leaves the order open; generated programs have pure operands)")
+    ctx.assume("operands of applications are evaluated right to left by the SPEC (R7RS leaves the order open; generated programs have at most one effectful operand whose effect no other operand observes)")
     ctx.assume("primitives' own semantics on fixnum-sized integers, pairs and symbols are taken from the SPEC table prim_sem; bignum arithmetic is C04")
     ctx.assume("macro expansion is validated per program (outer comparison with this file's R7RS 7.3 desugaring), hygiene is C07")
+    ctx.assume("a global variable has ONE location for the whole program: a top-level define of a bound variable is an assignment (R7RS 5.3.1), which is what the SPEC's glob_set does")
     ctx.trust("props/C03.py desugarer + scope resolution (independent front end used as the SPEC's input), harness/embed_c03.c AST / bytecode dumper")
 
 
@@ -1587,7 +1608,7 @@ def replay(ctx, j):
     h = Harness(d)
     still = 0
     for c in j.get("failing_cases", []):
-        _, ans = h.run(["PROG " + c["input"]])
+        _, ans = h.run(["PROGF " + c["input"]])
         out = impl_outcome(ans[0])
         bad = out != c.get("expected")
         still += bad
